@@ -34,6 +34,15 @@ K_DROP = "collapse_cost/masked-parameter-dropped/empty-intersection-with-mask"
 K_LOOP_DEGEN = "csolver/collapse-loop-does-not-terminate/degenerate-interval-reported-again"
 K_LOOP_DROP = "csolver/collapse-loop-does-not-terminate/dropped-parameter-reported-again"
 K_DROP_S = "csolver/mask-lost-parameter/empty-intersection-with-mask"
+K_SPELL = "collapse_cost/mask-adds-nothing-but-reported/interval-or-list-spelled-with-another-container"
+K_SPELL_T = "CollapseCost/mask-adds-nothing-but-reported/interval-or-list-spelled-with-another-container"
+K_SPELL_S = "csolver/spurious-collapse/mask-adds-nothing/interval-or-list-spelled-with-another-container"
+
+# spellings of one mask value.  Documented (collapse.py l.246-252, termination.py l.559-561): "an interval (min,max), or a
+# list of intervals" = `flat` (lo, hi) and `list` [(lo, hi), ..].  The validation (l.259-281) also accepts an interval
+# spelled as a list and a tuple of intervals: `flatl` [lo, hi], `listl` [[lo, hi], ..], `tup` ((lo, hi), ..), `tupl` ([lo, hi], ..)
+CANON_SP = ("flat", "list")
+ODD_SP = ("flatl", "listl", "tup", "tupl")
 
 
 def bump(h, k, n=1):
@@ -55,9 +64,69 @@ def mk_mask(spec):
             d[key] = copy.deepcopy(v[1])
         elif v[0] == "flat":
             d[key] = (v[1], v[2])
+        elif v[0] == "flatl":
+            d[key] = [v[1], v[2]]
+        elif v[0] == "listl":
+            d[key] = [list(p) for p in v[1]]
+        elif v[0] == "tup":
+            d[key] = tuple(tuple(p) for p in v[1])
+        elif v[0] == "tupl":
+            d[key] = tuple(list(p) for p in v[1])
         else:
             d[key] = [tuple(p) for p in v[1]]
     return d
+
+
+def norm_spec(spec):
+    """the mask a spec MEANS: {key: [(lo, hi), ..]} (None for rejected / non-dict specs)"""
+    if spec is None or isinstance(spec, str):
+        return None
+    out = {}
+    for k, v in spec:
+        if isinstance(k, tuple) or v[0] == "bad":
+            return None
+        out[k] = [(v[1], v[2])] if v[0] in ("flat", "flatl") else [tuple(p) for p in v[1]]
+    return out
+
+
+def spec_spellings(spec):
+    return set() if spec is None or isinstance(spec, str) else set(v[0] for _, v in spec if v[0] != "bad")
+
+
+def spell_class(spec):
+    sp = spec_spellings(spec)
+    if sp & set(ODD_SP):
+        return "other-container"
+    return "bare-interval" if "flat" in sp else "list-of-intervals"
+
+
+def respell(spec, style, rng=None):
+    """the same mask in another spelling: 'list' | 'bare' (every single interval as (lo,hi)) | 'odd' (containers the
+    validation accepts beside the documented ones) | 'mixed' (per key any)"""
+    out = []
+    for k, v in spec:
+        ivs = [(v[1], v[2])] if v[0] in ("flat", "flatl") else list(v[1])
+        single = len(ivs) == 1
+        if style == "list":
+            sp = "list"
+        elif style == "bare":
+            sp = "flat" if single else "list"
+        elif style == "odd":
+            sp = rng.choice((["flatl"] if single else []) + ["listl", "tup", "tupl"])
+        else:
+            sp = rng.choice((["flat", "flat", "flatl"] if single else []) + ["list", "list", "listl", "tup", "tupl"])
+        out.append((k, (sp, ivs[0][0], ivs[0][1]) if sp in ("flat", "flatl") else (sp, ivs)))
+    return out
+
+
+def obj_spelling(v):
+    """what `==` against a list of tuples sees of a mask value AFTER the call"""
+    if not isinstance(v, (list, tuple)) or not len(v):
+        return "?"
+    if not hasattr(v[0], "__len__"):
+        return "flatl" if isinstance(v, list) else "flat"
+    inner = all(isinstance(p, tuple) for p in v)
+    return ("list" if inner else "listl") if isinstance(v, list) else ("tup" if inner else "tupl")
 
 
 def mask_sexp(spec):
@@ -70,10 +139,10 @@ def mask_sexp(spec):
         ks = "bad" if isinstance(k, tuple) else ("none" if k is None else str(int(k)))
         if v[0] == "bad":
             vs = "bad"
-        elif v[0] == "flat":
-            vs = "(flat %s %s)" % (f2b(v[1]), f2b(v[2]))
+        elif v[0] in ("flat", "flatl"):
+            vs = "(%s %s %s)" % (v[0], f2b(v[1]), f2b(v[2]))
         else:
-            vs = "(list (%s))" % " ".join("(%s %s)" % (f2b(a), f2b(b)) for a, b in v[1])
+            vs = "(%s (%s))" % (v[0], " ".join("(%s %s)" % (f2b(a), f2b(b)) for a, b in v[1]))
         out.append("(%s %s)" % (ks, vs))
     return "(dict (%s))" % " ".join(out)
 
@@ -212,7 +281,9 @@ def gen_mask(rng, n, unmasked):
     if k < 0.40:
         return None, "None"
     if k < 0.55 and isinstance(unmasked, dict) and unmasked:
-        return spec_of_result(unmasked), "own-output"
+        style = rng.choice(["list", "list", "bare", "bare", "bare", "mixed", "odd"])
+        spec = respell(spec_of_result(unmasked), style, rng)
+        return spec, "own-output:" + spell_class(spec)
     if k < 0.70 and isinstance(unmasked, dict) and unmasked:
         spec = spec_of_result(unmasked)
         j = rng.randrange(len(spec))
@@ -229,7 +300,9 @@ def gen_mask(rng, n, unmasked):
             spec[j] = (key, (tag, ivs[1:]))
         else:
             spec[j] = (key, (tag, [(a - 0.5, b - 0.5) for a, b in ivs]))
-        return spec, "own-output-" + mode
+        if rng.random() < 0.5:
+            spec = respell(spec, rng.choice(["bare", "bare", "mixed"]), rng)
+        return spec, "own-output-" + mode + ":" + spell_class(spec)
     if k < 0.90:
         keys = []
         for _ in range(rng.choice([0, 1, 1, 2, 3])):
@@ -241,11 +314,16 @@ def gen_mask(rng, n, unmasked):
         spec = []
         for kk in keys:
             ivs = gen_ivs(rng)
-            if rng.random() < 0.25:
+            j = rng.random()
+            if j < 0.35:
                 spec.append((kk, ("flat", ivs[0][0], ivs[0][1])))
-            else:
+            elif j < 0.42:
+                spec.append((kk, ("flatl", ivs[0][0], ivs[0][1])))
+            elif j < 0.85:
                 spec.append((kk, ("list", ivs)))
-        return spec, ("dict-empty" if not spec else "dict-None-key" if keys == [None] else "dict")
+            else:
+                spec.append((kk, (rng.choice(["listl", "tup", "tupl"]), ivs)))
+        return spec, ("dict-empty" if not spec else "dict-None-key" if keys == [None] else "dict:" + spell_class(spec))
     # rejected formats
     j = rng.random()
     if j < 0.3:
@@ -425,7 +503,9 @@ def cost_case(rng, hist):
     maskobj = mk_mask(spec)
     shown = repr(maskobj)
     res = call(lambda: ct.collapse_cost(mon, mask=maskobj, **kw))
-    impl = ("err", res[1]) if res[0] == "err" else ("ok", canon(res[1]))
+    # the caller's mask object AFTER the call: interval_overlap rewrites bare intervals into lists in place (tools.py l.928-931)
+    after = [] if (not isinstance(maskobj, dict) or res[0] != "ok") else sorted(("none" if k_ is None else str(int(k_)), obj_spelling(v_)) for k_, v_ in maskobj.items())
+    impl = ("err", res[1]) if res[0] == "err" else ("ok", canon(res[1]), after)
     findings = []
     tags = ["cost:mask=" + mclass, "cost:" + ("err-" + res[1] if res[0] == "err" else "empty" if not res[1] else "reports"),
             "cost:clip=%s" % c["clip"], "cost:samples=" + ("None" if c["samples"] is None else "<=0" if c["samples"] <= 0 else
@@ -456,21 +536,49 @@ def cost_case(rng, hist):
                         tags.append("cost:badruns>=2")
             # own output as mask, directly and through CollapseCost -> collapsed -> update_mask -> state
             if res[1]:
-                again = call(lambda: ct.collapse_cost(mon, mask=copy.deepcopy(res[1]), **kw))
                 ordered = all(chain_ordered([(float(a_), float(b_)) for a_, b_ in v]) for v in res[1].values())
-                if again[0] != "ok":
-                    findings.append(("collapse_cost/own-output/raises", "own output %r as mask raised %r" % (res[1], again)))
-                elif again[1]:
-                    findings.append((K_OWN_DEGEN if not ordered else "collapse_cost/own-output-reported-again",
-                                     "collapse_cost(mask = its own output %r) reports %r" % (res[1], again[1])))
-                tags.append("cost:own-output-checked" + ("" if ordered else ":not-chain-ordered"))
+                own = spec_of_result(res[1])
+                srng = _random.Random(len(rows) * 7919 + len(res[1]))
+                for style in ("list", "bare", "odd"):
+                    sp = respell(own, style, srng)
+                    if style == "bare" and spec_spellings(sp) == {"list"}:
+                        continue                                  # no single interval: same as 'list'
+                    mobj = mk_mask(sp)
+                    again = call(lambda: ct.collapse_cost(mon, mask=mobj, **kw))
+                    if again[0] != "ok":
+                        findings.append(("collapse_cost/own-output/raises" + ("" if style == "list" else "/" + spell_class(sp)),
+                                         "own output %r as mask raised %r" % (mk_mask(sp), again)))
+                    elif again[1]:
+                        key = (K_OWN_DEGEN if not ordered else K_SPELL if style == "odd" else
+                               "collapse_cost/own-output-reported-again" + ("" if style == "list" else "/" + spell_class(sp)))
+                        findings.append((key, "collapse_cost(mask = its own output, spelled %r) reports %r (unmasked result %r)" % (
+                            mk_mask(sp), again[1], res[1])))
+                    tags.append("cost:own-output-checked:" + style + ("" if ordered else ":not-chain-ordered"))
+                    if style != "list" and ordered and c["samples"] is not None:
+                        findings += term_quiet(mon, kw, sp, "own-output", tags, K_SPELL_T if style == "odd" else None)
                 if c["samples"] is not None:
                     findings += round_trip(mon, kw, None, res[1], None if ordered else K_OWN_DEGEN, tags)
         else:
-            M = mk_mask(spec)
-            for k_ in list(M):
-                if M[k_] and not hasattr(M[k_][0], "__len__"):
-                    M[k_] = [M[k_]]
+            M = norm_spec(spec)
+            # "minus those already in its mask": when the fresh bounds intersected with the mask ARE the mask (nothing meets
+            # the test at all, or the mask is the detector's own output, or lies inside it) there is nothing new to report -
+            # whatever accepted spelling the mask has.  E = the harness's own intersection (documented meaning).
+            if R is not None:
+                Rn = {k_: [(float(a_), float(b_)) for a_, b_ in v] for k_, v in R.items()}
+                Mf = {k_: [(float(a_), float(b_)) for a_, b_ in v] for k_, v in M.items()}
+                E = py_overlap(Rn, Mf)
+                if E == Mf:
+                    why = "nothing-meets-the-test" if not Rn else "own-output" if Rn == Mf else "mask-inside-fresh-bounds"
+                    tags.append("cost:mask-adds-nothing:%s:%s" % (why, spell_class(spec)))
+                    if res[1]:
+                        # recorded class F63 only for its mechanism: a parameter the scan itself reports (the value
+                        # compared at l.333 is a fresh list of tuples) whose mask value is spelled with another container
+                        odd = any(k_ in Rn and v_[0] in ODD_SP for k_, v_ in spec) and canon(res[1]) == canon(E)
+                        findings.append((K_SPELL if odd else "collapse_cost/mask-adds-nothing-but-reported/%s/%s" % (why, spell_class(spec)),
+                                         "unmasked result %r, mask %s: the intersection with the mask IS the mask (nothing new), but collapse_cost(mask=..) reports %r instead of {}" % (
+                                             R, shown, res[1])))
+                    elif c["samples"] is not None:
+                        findings += term_quiet(mon, kw, spec, why, tags)
             if res[1]:
                 for k_, ivs in res[1].items():
                     for iv in ivs:
@@ -506,6 +614,52 @@ def cost_case(rng, hist):
         bump(hist, t)
     return {"line": line, "impl": impl, "findings": findings, "args": {"rows": rows, "costs": costs, "kw": kw, "mask": shown},
             "nontrivial": res[0] == "ok" and bool(res[1]), "monitored": monitored}
+
+
+def py_overlap(R, M):
+    """the documented meaning of tools.interval_overlap(R, M): interval-wise intersection on common keys (a key whose
+    intersection is empty is dropped, as the code does - recorded class F54), other keys of either side kept"""
+    out = {}
+    for k, v in R.items():
+        if k in M:
+            iv = py_inter(M[k], v)
+            if iv:
+                out[k] = iv
+        else:
+            out[k] = list(v)
+    for k in M:
+        if k not in R:
+            out[k] = list(M[k])
+    return out
+
+
+def term_quiet(mon, kw, spec, why, tags, known=None):
+    """termination level of 'the mask adds nothing': CollapseCost(.., mask) evaluated on the history (twice: the second
+    evaluation sees the mask object as the first one left it) must not report"""
+    from mystic import termination as mt
+    out = []
+    if not isinstance(kw["samples"], int) or len(mon.y) <= kw["samples"]:
+        return out
+    inst = _Inst(); inst.energy_history = mon.y; inst._stepmon = mon
+    odd = known is not None
+    try:
+        mobj = mk_mask(spec)
+        term = mt.CollapseCost(kw["clip"], kw["limit"], kw["samples"], mobj)
+        for rnd in (1, 2):
+            msg = term(inst, True)
+            if msg:
+                out.append((K_SPELL_T if odd else "CollapseCost/mask-adds-nothing-but-reported/%s/%s" % (why, spell_class(spec)),
+                            "CollapseCost(clip=%r, limit=%r, samples=%r, mask=%r), evaluation #%d on a history where the mask adds nothing (%s): message %r" % (
+                                kw["clip"], kw["limit"], kw["samples"], mk_mask(spec), rnd, why, msg)))
+                break
+            if bool(term(inst, False)):
+                out.append((K_SPELL_T if odd else "CollapseCost/mask-adds-nothing-but-reported/%s/%s" % (why, spell_class(spec)),
+                            "CollapseCost(.., mask=%r)(solver) is True although the mask adds nothing (%s)" % (mk_mask(spec), why)))
+                break
+        tags.append("cost:termination-quiet-checked:" + spell_class(spec))
+    except Exception as e:     # noqa
+        out.append(("CollapseCost/mask-adds-nothing/raises", "%s: %s" % (type(e).__name__, e)))
+    return out
 
 
 def round_trip(mon, kw, spec, result, cls, tags):
@@ -548,7 +702,7 @@ def judge_cost(c, rep, add, case):
     if r[0] == "err":
         model = ("err", r[1])
     else:
-        model = ("ok", canon_model(r[1]["res"]))
+        model = ("ok", canon_model(r[1]["res"]), sorted((str(kv[0]), str(kv[1])) for kv in r[1].get("after", [])))
     if model != tuple(c["impl"]):
         add("correspondence", "collapse_cost/diverges", "model %r, implementation %r" % (model, c["impl"]), case)
     elif r[0] == "ok" and r[1].get("sorted") != "true":
@@ -563,7 +717,7 @@ class CostLoopError(Exception):
 
 def csolver_case(rng, hist, big=False):
     import numpy
-    from mystic import solvers as ms, termination as mt
+    from mystic import solvers as ms, termination as mt, collapse as ct
     from mystic.monitors import Monitor
     nd = rng.choice([1, 2, 2, 3])
     solver_name = rng.choice(["DE", "DE2", "DE2", "NM", "Powell"])
@@ -590,9 +744,23 @@ def csolver_case(rng, hist, big=False):
     g = rng.choice([20, 30])
     stop = rng.choice(["cog", "ncog"])
     stopc = {"cog": mt.ChangeOverGeneration(1e-13, g), "ncog": mt.NormalizedChangeOverGeneration(1e-10, g)}[stop]
-    order = [mt.CollapseCost(clip, limit, samples), stopc]
-    rng.shuffle(order)
-    term = mt.Or(*order)
+    # the condition's initial mask, in every spelling CollapseCost documents: None / the solver's own bounds exactly as
+    # tools.solver_bounds gives them ({k: (lo, hi)}, bare tuples) / the same as lists of intervals / bounds for only some
+    # of the parameters / containers the validation accepts beside the documented ones
+    lo_b = [min(opt[k], plate.get(k, (0.0, 0.0))[0]) - rng.choice([4.0, 6.0, 50.0]) for k in range(nd)]
+    hi_b = [max(opt[k], plate.get(k, (0.0, 0.0))[1]) + rng.choice([4.0, 6.0, 50.0]) for k in range(nd)]
+    mk = rng.choice(["none", "none", "none", "solver-bounds", "solver-bounds", "solver-bounds", "bare", "list", "list", "partial-bare", "odd"])
+    strict = mk == "solver-bounds" or (mk != "none" and rng.random() < 0.5)
+    keys = list(range(nd))
+    if mk == "partial-bare" and nd > 1:
+        keys = sorted(rng.sample(range(nd), rng.randint(1, nd - 1)))
+    mspec = None if mk == "none" else [(k, ("list", [(lo_b[k], hi_b[k])])) for k in keys]
+    if mk in ("solver-bounds", "bare", "partial-bare"):
+        mspec = respell(mspec, "bare")
+    elif mk == "odd":
+        mspec = respell(mspec, "odd", rng)
+    order = [mt.CollapseCost(clip, limit, samples), stopc]      # replaced below once the solver (and its bounds) exists
+    cpos = rng.randrange(2)
     seed = rng.randrange(2 ** 31)
     _random.seed(seed); numpy.random.seed(seed)
     calls = []; events = []; states = set()
@@ -619,6 +787,21 @@ def csolver_case(rng, hist, big=False):
     else:
         s.SetInitialPoints(x0)
         init = "x0"
+    if strict:
+        s.SetStrictRanges(lo_b, hi_b)
+    if mk == "solver-bounds":
+        from mystic import tools as to
+        try:
+            imask = to.solver_bounds(s)                  # the documented producer of the bare form
+        except ValueError:
+            # solver_bounds tests `solver._strictMin or ..`, which raises for the arrays SetStrictRanges stores when
+            # nDim > 1 (outside C11): build what it would return
+            imask = dict(enumerate(zip(s._strictMin, s._strictMax)))
+    else:
+        imask = mk_mask(mspec)
+    order = [stopc]; order.insert(cpos, mt.CollapseCost(clip, limit, samples, imask))
+    term = mt.Or(*order)
+    mode = rng.choice(["Solve", "Solve", "Step"])
     maxgen = (400 if big else 200) if solver_name != "Powell" else (40 if big else 25)
     s.SetEvaluationLimits(generations=maxgen)
     s.SetGenerationMonitor(Monitor())
@@ -645,17 +828,38 @@ def csolver_case(rng, hist, big=False):
         if st in states:
             raise CostLoopError("Collapse() #%d finds the solver in a state it was in before (no step, no evaluation in between, same masks): the loop of _Solve never ends" % (len(events) + 1))
         states.add(st)
+        snap = ([list(map(float, x_)) for x_ in s._stepmon._x], [float(y_) for y_ in s._stepmon._y])
         r = orig(disp)
         events.append({"ncalls": ncalls, "collapse": copy.deepcopy(r), "before": before, "after": mt.state(s._termination),
-                       "gens": s.generations, "nsteps": len(s._stepmon)})
+                       "gens": s.generations, "nsteps": len(s._stepmon), "snap": snap if r else None})
         return r
     s.Collapse = wrapped
     findings = []
     args = {"solver": solver_name, "nd": nd, "opt": opt, "plateau": {str(k): v for k, v in plate.items()}, "height": height, "scale": scale,
-            "clip": clip, "limit": limit, "samples": samples, "stop": stop, "g": g, "seed": seed, "init": init, "x0": x0}
+            "clip": clip, "limit": limit, "samples": samples, "stop": stop, "g": g, "seed": seed, "init": init, "x0": x0,
+            "mask": repr(imask), "mask_kind": mk, "strict_ranges": [lo_b, hi_b] if strict else None, "mode": mode}
+    bump(hist, "csolver:mask=%s:%s" % (mk, mode))
+    cut = False
     try:
         with numpy.errstate(all="ignore"):
-            s.Solve(cost_fn, term)
+            if mode == "Solve":
+                s.Solve(cost_fn, term)
+            else:
+                # step-wise: the caller looks at Collapsed() after every stop and applies it himself
+                s.SetObjective(cost_fn); s.SetTermination(term)
+                rounds = 0
+                while True:
+                    guard = 0
+                    while not s.Step():
+                        guard += 1
+                        if guard > 4 * maxgen + 50:
+                            break
+                    rounds += 1
+                    if guard > 4 * maxgen + 50 or rounds > 200:
+                        cut = True                      # the harness's own loop gave up: 'Solve returns' is not judged
+                        break
+                    if not s.Collapsed() or not s.Collapse():
+                        break
     except CostLoopError as e:
         cyc = [ev["collapse"] for ev in events[-4:] if ev["collapse"]]
         degen = any(not (float(a_) < float(b_)) for cl in cyc for v in cl.values() for ivs in v.values() for a_, b_ in ivs)
@@ -688,10 +892,29 @@ def csolver_case(rng, hist, big=False):
             if kwb is None:
                 findings.append(("csolver/collapse-key-not-in-termination", "collapse key %r is not a condition of the termination %r" % (key, list(e["before"]))))
                 continue
+            # "minus those already in its mask": the unmasked detector on the very history the solver had, intersected (by
+            # the harness) with the mask the condition held - when that IS the mask there was nothing to stop for / apply
+            if e.get("snap") and isinstance(kwb.get("mask"), dict):
+                ref = call(lambda: ct.collapse_cost(make_monitor(*e["snap"]), clip, limit, samples))
+                try:
+                    Mf = {k_: [(float(a_), float(b_)) for a_, b_ in (v_ if hasattr(v_[0], "__len__") else [v_])] for k_, v_ in kwb["mask"].items()}
+                except Exception:     # noqa
+                    Mf = None
+                if ref[0] == "ok" and Mf is not None:
+                    Rn = {k_: [(float(a_), float(b_)) for a_, b_ in v_] for k_, v_ in ref[1].items()}
+                    if py_overlap(Rn, Mf) == Mf:
+                        why = "nothing-meets-the-test" if not Rn else "own-output" if Rn == Mf else "mask-inside-fresh-bounds"
+                        first = ncoll == 1
+                        known = first and mk == "odd" and any(k_ in Rn for k_ in Mf)
+                        findings.append((K_SPELL_S if known else "csolver/spurious-collapse/mask-adds-nothing/%s/%s" % (
+                            why, (spell_class(mspec) if mspec is not None else "None") if first else "mask-written-by-update_mask"),
+                            "%s, %s() mode, Or(CollapseCost(clip=%r, limit=%r, samples=%r, mask=%s), %s): stopped at generation %d with the cost collapse %r, but the unmasked detector on the recorded history (%d records) finds %r, whose intersection with the mask %r is the mask itself: nothing new met the test" % (
+                                solver_name, mode, clip, limit, samples, args["mask"] if first else repr(kwb["mask"]), stop, e["gens"], val, len(e["snap"][1]), ref[1], kwb["mask"])))
+                    bump(hist, "csolver:collapse-justification-checked")
             after = [v for k2, v in e["after"].items() if k2.startswith("CollapseCost")]
             if len(after) != 1 or not isinstance(after[0].get("mask"), dict) or canon(after[0]["mask"]) != canon(val):
                 findings.append(("csolver/mask-is-not-the-applied-bounds", "applied %r, masks afterwards %r" % (val, [a_.get("mask") for a_ in after])))
-            old = kwb.get("mask") or {}
+            old = {k_: (v_ if hasattr(v_[0], "__len__") else [v_]) for k_, v_ in (kwb.get("mask") or {}).items()}
             for k_ in old:
                 if k_ not in val and k_ not in dropped:
                     dropped.add(k_)
@@ -727,7 +950,9 @@ def csolver_case(rng, hist, big=False):
             if solver_name != "NM" and final in calls[:lastc] and final not in calls[lastc:]:
                 key = "solver/final-solution/pre-collapse-best-survives"
             findings.append((key, "final solution %r: x[%d] is outside the applied bounds %r" % (final, badp[0], bounds[badp[0]])))
-    if not s.Terminated(info=True):
+    if cut:
+        bump(hist, "csolver:step-mode-cut-off")
+    elif not s.Terminated(info=True):
         findings.append(("csolver/solve-returned-unterminated", "Solve returned but Terminated() is false"))
     args.update({"final": final, "ncalls": len(calls),
                  "events": [{"ncalls": e["ncalls"], "collapse": repr(e["collapse"]), "gens": e["gens"]} for e in events if e["collapse"]][:6]})
